@@ -210,7 +210,7 @@ def hardware_for(draw, spec, configs=("accel",), force=None):
     if not has_merger and spec.get("partitioning") and "occupancy" not in repr(spec["partitioning"]):
         has_merger = draw(st.integers(0, 3)) > 0       # mergers in front of statically partitioned / flattened tensors
     has_merger = has_merger or bool(hint.get("merger"))
-    has_reg = draw(st.integers(0, 2)) == 0
+    has_reg = draw(st.integers(0, 1)) == 0
     mrg_inputs = draw(st.sampled_from([2, 64, "inf"]))
     mrg_radix = draw(st.sampled_from([2, 64, "inf"]))
     freq = draw(st.sampled_from([1000, 2048, 500000000]))
@@ -268,6 +268,8 @@ def hardware_for(draw, spec, configs=("accel",), force=None):
                         rf["cbits"] = draw(st.sampled_from([0, 32, 64]))
                     if draw(st.integers(0, 4)) > 0:
                         rf["pbits"] = draw(st.sampled_from([0, 32, 64]))
+                    if draw(st.sampled_from([False] * 5 + [True])):
+                        rf["layout"] = draw(st.sampled_from(["interleaved", "interleaved", "contiguous"]))
                     f[r] = rf
                 fmt[t][found] = f
             fmt_name[(out, t)] = found
@@ -290,7 +292,8 @@ def hardware_for(draw, spec, configs=("accel",), force=None):
                 for r in rs:
                     if eager_root is not None:
                         break        # everything below the root of an eager binding is covered by it
-                    for ty in ("coord", "payload"):
+                    interleaved = fmt[t][fmt_name[(out, t)]].get(r, {}).get("layout") == "interleaved"
+                    for ty in (("coord", "payload", "elem") if interleaved else ("coord", "payload")):
                         if draw(st.booleans()):
                             continue
                         b = {"tensor": t, "rank": r, "type": ty, "format": fmt_name[(out, t)]}
@@ -326,11 +329,20 @@ def hardware_for(draw, spec, configs=("accel",), force=None):
                 bb.append(nb)
         if bb and (memory_only or draw(st.integers(0, 3)) > 0):
             entry.append({"component": names["buf"], "bindings": bb})
-        if has_reg and bb and buf_class == "Buffet" and draw(st.booleans()):
+        outer_eager = any(b.get("style") == "eager" for b in bb)
+        if has_reg and bb and buf_class == "Buffet" and (outer_eager or draw(st.booleans())):
             # an inner register file holding (part of) what the outer buffer holds: lazily, or eagerly from some rank down
             rb = []
             done_t = set()
             for b in bb:
+                if b.get("style") == "eager" and b["tensor"] not in done_t and draw(st.integers(0, 3)) > 0:
+                    # eagerly loaded (coordinates and, by expansion, payloads) outside, payloads filled lazily inside
+                    r = b["rank"]
+                    i = lo.index(r) if r in lo else next((k_ for k_, x_ in enumerate(lo) if r in x_), len(lo))
+                    rb.append({"tensor": b["tensor"], "rank": r, "type": "payload", "format": b["format"],
+                               "evict-on": draw(st.sampled_from((["root"] + lo)[:i + 1])), "style": "lazy"})
+                    done_t.add(b["tensor"])
+                    continue
                 if b["tensor"] in done_t or b.get("style") == "eager" or draw(st.booleans()):
                     continue
                 nb = {k_: v for k_, v in b.items() if k_ not in ("style", "root")}
